@@ -6,7 +6,7 @@ from engines import e1_monitors as mon
 class SpecC01(e1_driver.Spec):
     prop = 'C01'
     monitor = mon.MonC01
-    profile = dict(p_pool_l=0.2, p_pool_s=0.15)
+    profile = dict(p_pool_l=0.2, p_pool_s=0.15, p_frequent_bounds=0.15)
     runs = dict(quick=80, thorough=1500)
     budget = dict(quick=120, thorough=1500)
     rule = ('one case = a seeded world configuration (likelihood family, '
